@@ -175,7 +175,8 @@ def norm_model_step(m):
     out = m["out"]
     if isinstance(out, dict):
         sm = out.pop("stateModes")
-        out["nstate"] = out["backendModes"] if sm is None else max(sm[1] - sm[0], 0)
+        # an empty selection (everything cropped) makes the engine return no state object at all
+        out["nstate"] = out["backendModes"] if sm is None else (sm[1] - sm[0] if sm[1] > sm[0] else None)
     return m
 
 
